@@ -1547,6 +1547,9 @@ def dynamic_dispatch(t: Term) -> Optional[Term]:
     (a table, a string built at run time) that a shape-based rule cannot read.  Checks that compare what a
     function builds against a law refuse to judge such a function rather than report a difference."""
     for sub in walk_all(t):
+        # .. also when the chosen method is the element of a search: next(getattr(self, name) for .. in <table> if ..)(args)
+        if isinstance(sub, tuple) and sub and sub[0] == "comp" and isinstance(sub[2], tuple) and sub[2][:2] == ("app", ("global", "builtins.getattr")) and len(sub[2][2]) >= 2 and sub[2][2][1][0] != "const":
+            return sub[2]
         if isinstance(sub, tuple) and sub and sub[0] == "app" and isinstance(sub[1], tuple) and sub[1] and sub[1][0] == "app":
             f = strip_sites(sub[1])
             if f[1] == ("global", "builtins.getattr") and len(f[2]) >= 2 and f[2][1][0] != "const":
